@@ -2478,7 +2478,7 @@ class EdgeQLSourceGenerator(codegen.SourceGenerator):
 
     def visit_AlterCast(self, node: qlast.AlterCast) -> None:
         def after_name() -> None:
-            self._write_keywords('FROM ')
+            self._write_keywords(' FROM ')
             self.visit(node.from_type)
             self._write_keywords(' TO ')
             self.visit(node.to_type)
@@ -2491,7 +2491,7 @@ class EdgeQLSourceGenerator(codegen.SourceGenerator):
 
     def visit_DropCast(self, node: qlast.DropCast) -> None:
         def after_name() -> None:
-            self._write_keywords('FROM ')
+            self._write_keywords(' FROM ')
             self.visit(node.from_type)
             self._write_keywords(' TO ')
             self.visit(node.to_type)
